@@ -583,6 +583,18 @@ S.append(Schema('memo_lookahead_reuse', [Rule('R', Seq(Not(Seq(Ref('M'), D)), F(
     post=ERR_REAL,
     note='!(M D) m:M c:C with @memoize M = a:A b:B: a cached failure is reported at the offset where it happened'))
 
+# C14: in a @no_skip_ws rule an extern function is handed the input exactly at the current offset, blanks included
+S.append(Schema('extern_noskip_blanks', [Rule('R', Seq(fa(), Opt(fb()), Eoi()), skip=False, export=True)], 'R', 'AB', n=3, alphabet='x ',
+    props=('C14',), extract=J(one(0, 'v.a'), opt(1, 'v.b')),
+    note='@no_skip_ws R = a:A [b:B] $ over inputs with blanks: nothing is skipped or trimmed in front of an extern call'))
+
+# C05 on DEEP inputs (a fixed family far outside the enumeration bound): nested brackets, two @memoize rules per level
+S.append(Schema('memo_deep', [Rule('R', Seq(Ref('L'), Eoi()), skip=False, export=True),
+                              Rule('L', Alt(Seq(Lit('y'), Ref('I'), Lit('z')), Lit('x')), skip=False, memo=True),
+                              Rule('I', Seq(Ref('L')), skip=False, memo=True)], 'R', '', n=3, alphabet='xyz',
+    props=('C05', 'C01'), cmp_fields=False, extract='', deep=('y', 'x', 'z'),
+    note="L $ with @memoize L = 'y' I 'z' | 'x' and @memoize I = L: also for nesting depths 1..2000 the memoized and the plain parser agree"))
+
 # ---------------------------------------------------------------------------------------------- differential twins
 # C13 / C05 / C19 are statements of the form "with the feature the parser behaves exactly as without it". They are decided by
 # running the schema and an automatically derived twin (same tree, operands, alphabet, bound; the feature removed) on every
